@@ -609,7 +609,7 @@ def sqrtm_psd(input_matrix):
     assert is_psd(input_matrix)
     eig_vals, eig_vecs = eigh(input_matrix)
     eig_vals = np.maximum(eig_vals, 0)
-    return (eig_vecs * np.sqrt(eig_vals)) @ eig_vecs.T
+    return (eig_vecs * np.sqrt(eig_vals)) @ np.conjugate(eig_vecs.T)
 
 
 def hermitianize(input_matrix):
